@@ -177,7 +177,9 @@ func cliRow(idx int, line []byte, seed int64, cdiBin string, col *collector) {
 		ociFile := filepath.Join(w.root, "oci.json")
 		ob, _ := json.Marshal(baseOCI())
 		_ = os.WriteFile(ociFile, ob, 0o644)
-		patterns := [][]string{{"*/*"}, {libDevs[int(seed+int64(idx))%len(libDevs)]}, {"v1.com/*=x", "v2.org/*"}}
+		one := libDevs[int(seed+int64(idx))%len(libDevs)]
+		// disjoint, single, and overlapping pattern sets (a device matched twice is injected once)
+		patterns := [][]string{{"*/*"}, {one}, {"v1.com/*=x", "v2.org/*"}, {"*/*", one}, {one, one, "v?.*/*"}}
 		pat := patterns[int(seed+int64(idx))%len(patterns)]
 		for fi, format := range []string{"json", "yaml"} {
 			in := runTool(cdiBin, append([]string{"-d", dflag, "inject", "-o", format, ociFile}, pat...)...)
